@@ -83,6 +83,27 @@ type SignOpts struct {
 	PartyCount int
 	// Rand, when set, gives party i its randomness source (Parameters.SetRand): used to make the nonce reproducible
 	Rand func(i int) io.Reader
+	// PartialKeyRand, when set, is handed to Parameters.SetPartialKeyRand (a keygen knob; signing must not draw from it)
+	PartialKeyRand func(i int) io.Reader
+	// CtxCache, when non-nil, makes sessions with the same signer keys share one *tss.PeerContext (and its party ids), as
+	// an application does that builds the quorum object once and signs many times with it
+	CtxCache map[string]*tss.PeerContext
+}
+
+func peerCtxFor(o SignOpts, pids tss.SortedPartyIDs) (*tss.PeerContext, tss.SortedPartyIDs) {
+	if o.CtxCache == nil {
+		return tss.NewPeerContext(pids), pids
+	}
+	k := ""
+	for _, p := range pids {
+		k += p.KeyInt().Text(16) + ","
+	}
+	if c, ok := o.CtxCache[k]; ok {
+		return c, c.IDs()
+	}
+	c := tss.NewPeerContext(pids)
+	o.CtxCache[k] = c
+	return c, pids
 }
 
 // pidsForKeys builds the signer party ids from the share ids stored in the key data, optionally shuffled before sorting.
@@ -102,7 +123,7 @@ func ECDSASigning(seed int64, keys []ecdsakeygen.LocalPartySaveData, t int, msg 
 		ids[i] = keys[i].ShareID
 	}
 	pids := pidsForShareIDs(ids, w, o.Shuffle)
-	ctx := tss.NewPeerContext(pids)
+	ctx, pids := peerCtxFor(o, pids)
 	for i, pid := range pids {
 		var key ecdsakeygen.LocalPartySaveData
 		for k := range keys {
@@ -115,6 +136,9 @@ func ECDSASigning(seed int64, keys []ecdsakeygen.LocalPartySaveData, t int, msg 
 		params.SetConcurrency(Concurrency)
 		if o.Rand != nil {
 			params.SetRand(o.Rand(i))
+		}
+		if o.PartialKeyRand != nil {
+			params.SetPartialKeyRand(o.PartialKeyRand(i))
 		}
 		if ParamHook != nil {
 			ParamHook(params)
@@ -239,7 +263,7 @@ func EDDSASigning(seed int64, keys []eddsakeygen.LocalPartySaveData, t int, msg 
 		ids[i] = keys[i].ShareID
 	}
 	pids := pidsForShareIDs(ids, w, o.Shuffle)
-	ctx := tss.NewPeerContext(pids)
+	ctx, pids := peerCtxFor(o, pids)
 	for i, pid := range pids {
 		var key eddsakeygen.LocalPartySaveData
 		for k := range keys {
@@ -251,6 +275,9 @@ func EDDSASigning(seed int64, keys []eddsakeygen.LocalPartySaveData, t int, msg 
 		params := tss.NewParameters(tss.Edwards(), ctx, pid, signPartyCount(o, len(pids)), t)
 		if o.Rand != nil {
 			params.SetRand(o.Rand(i))
+		}
+		if o.PartialKeyRand != nil {
+			params.SetPartialKeyRand(o.PartialKeyRand(i))
 		}
 		if ParamHook != nil {
 			ParamHook(params)
